@@ -88,6 +88,9 @@ def count_driver(u):
         ("C18.check,C05.verdict,C17.skip", "res.is_none() ==> final(w).stop_seen"),
         ("C18.check", "final(w).stop_seen ==> old(w).stop_seen || res.is_none()"),
         ("C05.verdict,C17.skip", "res.is_some() ==> res.unwrap() as int == tree_missing(old(w).files, old(w).fs, CFG, old(w).files.len() as int)"),
+        # what is reported: per file its missing-reference lines (path, line, column) and its total, then the overall total
+        ("C05.where", "res.is_some() ==> final(w).log =~= (old(w).log + tree_report(old(w).files, old(w).fs, CFG, old(w).files.len() as int))"
+         ".push(Event { tag: 7, strs: seq![], nums: seq![tree_missing(old(w).files, old(w).fs, CFG, old(w).files.len() as int)] })"),
     ]
     f.requires += pre
     f.ensures += [(l, x.replace("CFG", cfg)) for l, x in post]
@@ -102,10 +105,11 @@ def count_driver(u):
         ("C04.frame", "w.fs == old(w).fs && same_but_fs(World { log: w.log, stop_seen: w.stop_seen, ..*old(w) }, *w)"),
         ("C18.check", "w.stop_seen == old(w).stop_seen"),
         ("C05.verdict,C17.skip", "all_map_results@ == count_results(files, fs0, cfg, it.index@)"),
+        ("C05.where", "w.log =~= old(w).log + tree_report(files, fs0, cfg, it.index@)"),
         ("C05.verdict", "forall|i: int| 0 <= i < it.index@ ==> file_missing(fs0, cfg, #[trigger] files[i]) <= u32::MAX"),
     ], iter_name="it", kind="for")
     blk.before_stmt("let path = file.path.clone();", "proof { lemma_tree_missing_mono(files, fs0, cfg, it.index@ + 1, files.len() as int);"
-                    " lemma_tree_missing_nonneg(files, fs0, cfg, it.index@); assert(files[it.index@] == file.path@); }\n            ")
+                    " lemma_tree_missing_nonneg(files, fs0, cfg, it.index@); assert(files[it.index@] == file.path@); lemma_tree_report_step(old(w).log, files, fs0, cfg, it.index@ + 1); }\n            ")
     blk.before("ProcessorType::reduce(", "proof { lemma_count_results_sum(files, fs0, cfg, files.len() as int); }\n        ")
     return f, blk
 
@@ -289,6 +293,9 @@ def generate_code(u):
         ("C08.fail", "res.is_ok() ==> final(w).files.len() > 0 && all_edited(*final(w), %s, final(w).files.len() as int)" % cfg),
         ("C06.noop", "%s == 0 ==> forall|p: Seq<char>| p != lock_path() ==> (#[trigger] final(w).fs.dom().contains(p)) == old(w).fs.dom().contains(p)" % tmiss),
         ("C06.noop", "%s == 0 ==> forall|p: Seq<char>| p != lock_path() ==> (#[trigger] final(w).fs[p]) == old(w).fs[p]" % tmiss),
+        # the count printed ([ref: 21]) is the number of tokens inserted: printed only on the all-success path, where every
+        # statement lacking a reference received one
+        ("C05.count", "res.is_ok() && final(w).log.len() > old(w).log.len() && final(w).log.last().tag == 21 ==> final(w).log.last().nums =~= seq![%s]" % tmiss),
         ("C16.nocache", "!%s.use_cache ==> final(w).fs.dom().contains(lock_path()) == old(w).fs.dom().contains(lock_path()) && final(w).fs[lock_path()] == old(w).fs[lock_path()]" % cfg),
         # the lock covers every ID written (D10/D12: unless the lock write itself failed)
         ("C02.step", "%s.use_cache && !(final(w).alloc.dom() =~= Set::<Seq<char>>::empty()) ==> "
